@@ -97,20 +97,28 @@ ASSUME PrintT(ToJson([tree |-> Tree]))
 \* Successors are generated only below the last depth (TLC evaluates invariants also on states outside a CONSTRAINT).
 VARIABLE depth
 InitB == Init /\ depth = 1
-Bound == depth <= MaxLevel
-G == depth < MaxLevel /\ depth' = depth + 1
-BSetN == G /\ DoSetN
-BUpdateN == G /\ DoUpdateN
-BSetNs == G /\ DoSetNs
-BScale == G /\ DoScale
-BClear == G /\ DoClear
-BAddMass == G /\ DoAddMass
-BRemoveMass == G /\ DoRemoveMass
-BSetMass == G /\ DoSetMass
-BSetMassFracs == G /\ DoSetMassFracs
-BAddMasses == G /\ DoAddMasses
-BSetMasses == G /\ DoSetMasses
-BSetHeight == G /\ DoSetHeight
+\* C02_MAXLEVEL overrides the cfg's MaxLevel: the harness runs every exhaustive configuration a second time one level deep with
+\* TLC's (expensive) coverage instrumentation to show that each action is taken
+MaxL  == IF "C02_MAXLEVEL" \in DOMAIN IOEnv THEN atoi(IOEnv.C02_MAXLEVEL) ELSE MaxLevel
+Bound == depth <= MaxL
+G == depth < MaxL /\ depth' = depth + 1
+\* per-action counters (TLC registers 101..112; exact with one worker): the harness shows non-vacuity with them, because TLC's own
+\* coverage instrumentation is ten times more expensive than the model checking itself here
+Cnt(k) == TLCSet(k, TLCGet(k) + 1)
+ASSUME \A k \in 101..112 : TLCSet(k, 0)
+CountReport == PrintT(ToJson([counts |-> [i \in 1..12 |-> TLCGet(100 + i)]]))
+BSetN == G /\ DoSetN /\ Cnt(101)
+BUpdateN == G /\ DoUpdateN /\ Cnt(102)
+BSetNs == G /\ DoSetNs /\ Cnt(103)
+BScale == G /\ DoScale /\ Cnt(104)
+BClear == G /\ DoClear /\ Cnt(105)
+BAddMass == G /\ DoAddMass /\ Cnt(106)
+BRemoveMass == G /\ DoRemoveMass /\ Cnt(107)
+BSetMass == G /\ DoSetMass /\ Cnt(108)
+BSetMassFracs == G /\ DoSetMassFracs /\ Cnt(109)
+BAddMasses == G /\ DoAddMasses /\ Cnt(110)
+BSetMasses == G /\ DoSetMasses /\ Cnt(111)
+BSetHeight == G /\ DoSetHeight /\ Cnt(112)
 NextB == BSetN \/ BUpdateN \/ BSetNs \/ BScale \/ BClear \/ BAddMass \/ BRemoveMass \/ BSetMass \/ BSetMassFracs
          \/ BAddMasses \/ BSetMasses \/ BSetHeight
 View  == <<vars, depth>>
